@@ -941,6 +941,9 @@ class VM:
                     # the scope that creates it, whatever the later call form is. It
                     # cannot be constructed and so has no prototype property either
                     js_func._bound_this = frame.this_value
+                elif getattr(compiled_func, "is_method", False):
+                    # {m() {}} and accessors cannot be constructed: no prototype
+                    pass
                 else:
                     # Create prototype object for the function
                     # Every function that can be constructed has a prototype property
@@ -2962,6 +2965,8 @@ class VM:
                 target = target._original_func
             if getattr(getattr(target, "_compiled", None), "is_arrow", False):
                 raise JSTypeError("Arrow function is not a constructor")
+            if getattr(getattr(target, "_compiled", None), "is_method", False):
+                raise JSTypeError(f"{target.name} is not a constructor")
             # Create new object
             obj = JSObject()
             # Set prototype from constructor's prototype property; when that is not
